@@ -1,6 +1,7 @@
 """C17 - rolling sum and grouped mean reduce exactly the valid cells."""
 from __future__ import annotations
 
+import sys
 import itertools
 
 import numpy as np
@@ -347,3 +348,10 @@ def run(ctx):
                 "groups": [t % k for t in range(nt)], "as_array": idt}
 
     ctx.given("mean_grp_accessor", many_groups(), ctx.n(12, 120), fn=f_ga, shrink=False)
+
+
+from harness import history as _history  # noqa: E402
+
+_history.install(sys.modules[__name__], {"rolling_sum": _history.q_rolling, "mean_grp": _history.q_mean_grp},
+                 {"rolling_sum": _history.ROLLING_ARGS, "mean_grp": _history.MEAN_GRP_ARGS}, n=(200, 2500), dtypes=("int16", "int32", "float32"),
+                 attr_values=(-9999, 0, 255), cells=st.one_of(st.integers(-300, 300), st.sampled_from([-9999, 0, 255])))
